@@ -122,11 +122,24 @@ def lake_build(targets, timeout=3600):
     return p.returncode == 0, broken, dt, out
 
 
+def props_modules(prop):
+    """Props/<prop>.lean plus optional extension files Props/<prop>b.lean, <prop>c.lean, ..."""
+    d = os.path.join(LEAN, 'CopVerif', 'Props')
+    out = []
+    for fn in sorted(os.listdir(d)) if os.path.isdir(d) else []:
+        if re.fullmatch(re.escape(prop) + r'[a-z]?\.lean', fn):
+            out.append(fn[:-5])
+    return out
+
+
 def props_theorems(prop):
-    path = os.path.join(LEAN, 'CopVerif', 'Props', f'{prop}.lean')
-    src = strip_lean_comments(open(path).read())
-    names = re.findall(r'^\s*theorem\s+([^\s:(\[{]+)', src, re.M)
-    return names
+    """[(module, theorem)] over all property files of `prop`."""
+    out = []
+    for mod in props_modules(prop):
+        path = os.path.join(LEAN, 'CopVerif', 'Props', f'{mod}.lean')
+        src = strip_lean_comments(open(path).read())
+        out += [(mod, n) for n in re.findall(r'^\s*theorem\s+([^\s:(\[{]+)', src, re.M)]
+    return out
 
 
 def audit(prop):
@@ -140,17 +153,19 @@ def audit(prop):
                 code = strip_lean_comments(open(p).read())
                 for m in FORBIDDEN.finditer(code):
                     problems.append(f'forbidden token {m.group(0).strip()!r} in {os.path.relpath(p, LEAN)}')
-    names = props_theorems(prop)
+    pairs = props_theorems(prop)
+    names = [n for _, n in pairs]
     os.makedirs(os.path.join(LEAN, '.lake', 'audit'), exist_ok=True)
     af = os.path.join(LEAN, '.lake', 'audit', f'Audit{prop}.lean')
     with open(af, 'w') as f:
-        f.write(f'import CopVerif.Props.{prop}\n')
-        for n in names:
-            f.write(f'#print axioms CopVerif.Props.{prop}.{n}\n')
+        for mod in props_modules(prop):
+            f.write(f'import CopVerif.Props.{mod}\n')
+        for mod, n in pairs:
+            f.write(f'#print axioms CopVerif.Props.{mod}.{n}\n')
     p = subprocess.run(['lake', 'env', 'lean', af], cwd=LEAN, capture_output=True, text=True, timeout=1800)
     out = p.stdout + p.stderr
     axioms = {}
-    for m in re.finditer(r"'CopVerif\.Props\.%s\.([^']+)' (depends on axioms: \[([^\]]*)\]|does not depend on any axioms)" % prop,
+    for m in re.finditer(r"'CopVerif\.Props\.%s[a-z]?\.([^']+)' (depends on axioms: \[([^\]]*)\]|does not depend on any axioms)" % prop,
                          out, re.S):
         axs = [a.strip() for a in (m.group(3) or '').replace('\n', ' ').split(',') if a.strip()]
         axioms[m.group(1)] = axs
